@@ -169,9 +169,9 @@ def check(ctx):
             ctx.ob("R-PAIR", RU, "always-decrements", not any(x in r3 for x in f.ret_points()), "read_unlock always decrements", f.where(decs[0]))
     ctx.must_call("<may::sync::rwlock::RwLockReadGuard as std::ops::Drop>::drop", Call(re.escape(RU)), "read-guard-drop-unlocks", "dropping a read guard releases its count")
     WD = "<may::sync::rwlock::RwLockWriteGuard as std::ops::Drop>::drop"
-    ctx.must_call(WD, Call(re.escape(R) + "::write_unlock"), "write-guard-drop-unlocks", "dropping a write guard always unlocks (also when poisoning)")
-    ctx.order(WD, Call(r"may::sync::poison::Flag::done"), Call(re.escape(R) + "::write_unlock"), "poison-then-unlock", "the poison flag is set before the lock is released")
-    ctx.must_call(R + "::write_unlock", Call(re.escape(R) + "::unlock"), "write-unlock-unlocks", "write_unlock releases the global lock")
+    # stated on RwLock::unlock itself (reached directly or through the one-line write_unlock helper)
+    ctx.must_call(WD, Call(re.escape(R) + "::unlock"), "write-guard-drop-unlocks", "dropping a write guard always unlocks (also when poisoning)")
+    ctx.order(WD, Call(r"may::sync::poison::Flag::done"), Call(re.escape(R) + "::unlock"), "poison-then-unlock", "the poison flag is set before the lock is released")
     # ---- the global mutex part
     ctx.order(LK, Call(SEGQ + "push", on=R + ".to_wake"), atomic("fetch_add", R + ".cnt"), "enqueue-then-count", "lock() enqueues its blocker before incrementing cnt")
     ctx.must_follow(LK, None, Call(re.escape(R) + "::unpark_one"), "first-grab-self-wake", "a lock() whose increment found cnt == 0 wakes the head waiter",
@@ -185,6 +185,7 @@ def check(ctx):
     ctx.must_call(U, atomic("fetch_sub", R + ".cnt"), "always-decrement", "unlock always releases one count")
     handshake_waiter(ctx, LK, Call(re.escape(U)), "handshake", "lock", park_err, exits_kind="ret")
     handshake_waker(ctx, R + "::unpark_one", Call(re.escape(U)), "waker", "lock")
+    syncblocker_rules(ctx)      # the handshake primitives themselves (release is consumed atomically by exactly one side)
     ctx.mo_floor(R + ".cnt", ("fetch_sub",), "REL", "unlock-release", "critical section happens-before the next acquisition", only_in=re.escape(U))
     ctx.mo_floor(R + ".cnt", ("compare_exchange", "compare_exchange_weak"), "ACQ", "trylock-acquire", "", only_in=re.escape(TL))
     ctx.mo_floor(R + ".cnt", ("fetch_add",), "ACQ", "lock-acquire", "", only_in=re.escape(LK))
